@@ -5,7 +5,9 @@ regenerated from the Go source on every run by `harness/cmd/go2lean`, over *view
 (`Conn`, `Config`, `halfConn`, `goSized`, `goAEAD`, `goCBC`, `goStream`; `Dyn` = the dynamic type of
 the interface value `c.out.cipher`).  The theorems below prove, for ALL views in the stated ranges,
 that they compute what the hand-written models `Gotlcp.Model.RecordTx` (C06) and
-`Gotlcp.Model.DtlcpTx` (C15) — instantiated with the regenerated facts — compute.
+`Gotlcp.Model.DtlcpTx` (C15) compute — C06 instantiated with the regenerated facts, C15 with the
+literal `Model.DtlcpTx.treeConsts` (so the C15 tie does not depend on any text-matching fact about
+these very functions: a rename-only edit leaves it intact, a semantic edit breaks it).
 
 Go `int64` counters are `BitVec 64` with signed comparisons; `x & ^(b-1)` on `int` is
 `Go.andInt x (Int.not (b - 1))` (two's complement on 64 bits), shown here to be rounding down to
@@ -295,13 +297,13 @@ open Gotlcp.Model.DtlcpTx
 abbrev SrcConn := Gotlcp.Src.dtlcp.Conn
 abbrev SrcHalf := Gotlcp.Src.dtlcp.halfConn
 
-/-- the constants of the tree under test (the same record as `Props.C15.here`) -/
-def K : Consts :=
-  { defaultPmtu := Facts.dtlcp.txDefaultPmtu, recordHeaderLen := Facts.dtlcp.recordHeaderLen,
-    maxPlaintext := Facts.dtlcp.maxPlaintext, cbcBudgetsPadding := Facts.dtlcp.txCbcBudgetsPadding }
+/-- the constants of the tree under test (the same record as `Props.C15.here`): the literal
+`Model.DtlcpTx.treeConsts` — default PMTU 1400, padding budgeted — over the two package constants
+the extractor evaluates; no text-matching fact about the translated functions is involved -/
+def K : Consts := treeConsts Facts.dtlcp.recordHeaderLen Facts.dtlcp.maxPlaintext
 
 /-- what the source text (constants folded into literals; the CBC arm budgets the padding) needs
-of the facts -/
+of the (evaluated) package constants -/
 theorem K_facts :
     K.defaultPmtu = 1400 ∧ K.recordHeaderLen = 13 ∧ K.maxPlaintext = 16384 ∧
     K.cbcBudgetsPadding = true := by decide
